@@ -4,6 +4,7 @@ import vlib
 from vlib import Report, ToolError, log
 
 PID = "C07"
+ENGINES = ["mmr"]
 
 
 def validate_trace(rep, trace_path, what):
